@@ -258,8 +258,15 @@ def run(chk):
         dfs, suffixes = [], []
         for i in range(nt):
             ks = rng.sample(keys_all, rng.randint(1, 6))
-            dfs.append(pd.DataFrame({"key": ks, "val": [rng.randint(0, 99) for _ in ks],
-                                     f"x{i}": [rng.random() if rng.random() < 0.8 else float("nan") for _ in ks]}))
+            shape = rng.random()
+            if i >= 1 and shape < 0.12:
+                ks = []                                     # a table without rows still contributes its columns (and empties an inner join)
+            if i >= 1 and 0.12 <= shape < 0.2:
+                # a key-only table (no value columns) still contributes its keys
+                dfs.append(pd.DataFrame({"key": ks}))
+            else:
+                dfs.append(pd.DataFrame({"key": pd.Series(ks, dtype=object), "val": pd.Series([rng.randint(0, 99) for _ in ks], dtype=float),
+                                         f"x{i}": pd.Series([rng.random() if rng.random() < 0.8 else float("nan") for _ in ks], dtype=float)}))
             suffixes.append(f"s{i}")
         if rng.random() < 0.2:
             suffixes.append("unused")              # more suffixes than tables: zip() ignores the rest
